@@ -538,7 +538,11 @@ func (x *Ctx) widthDispatchRule(r *core.Result, rs *core.RuleStat, name string) 
 	tlo, thi, _ := x.typeRange(fn.Signature.Results().At(0).Type())
 	okAll := true
 	n := 0
+	live := liveBlocks(fn)
 	for _, b := range fn.Blocks {
+		if !live[b] {
+			continue // branch for the other word size: the condition is a constant on this architecture
+		}
 		for _, ins := range b.Instrs {
 			c, ok := ins.(*ssa.Call)
 			if !ok {
@@ -853,4 +857,66 @@ func (x *Ctx) isAccOrZero(v ssa.Value, acc *ssa.Phi, seen map[ssa.Value]bool) bo
 		}
 	}
 	return true
+}
+
+// liveBlocks: blocks reachable from the entry when branches on compile-time constants are resolved.
+func liveBlocks(fn *ssa.Function) map[*ssa.BasicBlock]bool {
+	live := map[*ssa.BasicBlock]bool{}
+	var st []*ssa.BasicBlock
+	if len(fn.Blocks) == 0 {
+		return live
+	}
+	live[fn.Blocks[0]] = true
+	st = append(st, fn.Blocks[0])
+	for len(st) > 0 {
+		b := st[len(st)-1]
+		st = st[:len(st)-1]
+		succs := b.Succs
+		if iff, ok := b.Instrs[len(b.Instrs)-1].(*ssa.If); ok {
+			if v, known := constCond(iff.Cond); known {
+				if v {
+					succs = b.Succs[:1]
+				} else {
+					succs = b.Succs[1:2]
+				}
+			}
+		}
+		for _, s := range succs {
+			if !live[s] {
+				live[s] = true
+				st = append(st, s)
+			}
+		}
+	}
+	return live
+}
+
+func constCond(v ssa.Value) (bool, bool) {
+	switch t := v.(type) {
+	case *ssa.Const:
+		if t.Value != nil && t.Value.Kind() == constant.Bool {
+			return constant.BoolVal(t.Value), true
+		}
+	case *ssa.BinOp:
+		a, ok1 := constBig(t.X)
+		b, ok2 := constBig(t.Y)
+		if ok1 && ok2 {
+			c := a.Cmp(b)
+			switch t.Op {
+			case token.EQL:
+				return c == 0, true
+			case token.NEQ:
+				return c != 0, true
+			case token.LSS:
+				return c < 0, true
+			case token.LEQ:
+				return c <= 0, true
+			case token.GTR:
+				return c > 0, true
+			case token.GEQ:
+				return c >= 0, true
+			}
+		}
+	}
+	return false, false
 }
